@@ -36,6 +36,7 @@ var (
 	ke       *netlab.KEServer
 	relay    *relayT
 	srvAddr  *net.UDPAddr
+	scionSrvAddr *net.UDPAddr
 	laddr    *net.UDPAddr
 
 	sesMu    sync.Mutex
@@ -52,6 +53,8 @@ func TestMain(m *testing.M) {
 	srvAddr = netlab.UDPAddr(netlab.Addr(0), 12411)
 	laddr = netlab.UDPAddr(netlab.Addr(1), 0)
 	server.StartIPServer(context.Background(), log, srvAddr, 0, provider)
+	scionSrvAddr = netlab.UDPAddr(netlab.Addr(5), 12413)
+	server.StartSCIONServer(context.Background(), log, "", scionSrvAddr, 0, provider) // same provider: same cookies
 	var err error
 	if relay, err = newRelay(netlab.UDPAddr(netlab.Addr(2), 12412), srvAddr); err == nil {
 		ke, err = netlab.NewKEServer(&net.TCPAddr{IP: netlab.Addr(0).AsSlice(), Port: 0})
